@@ -15,6 +15,7 @@
 #include <climits>
 #include <cwchar>
 #include <sys/syscall.h>
+#include <signal.h>
 #include <unistd.h>
 #include <algorithm>
 #include <atomic>
@@ -52,8 +53,12 @@ static std::map<int, KPlan> kplan;                     // by sink slot
 static std::map<int, std::map<char, uint64_t>> kcount;
 static std::map<int, std::vector<std::string>> ktrace;
 static std::map<int, int> fd2sink; static int fd1_sink = 0;
+static std::map<int, std::vector<std::string>> created;   // by sink slot: log files in the order their open(O_CREAT) succeeded
+// the back-end thread of the async stdout sink inside poll(): who it is, whether it is in there now, how often it came back
+static std::atomic<bool> in_poll(false); static std::atomic<uint64_t> poll_returns(0); static std::atomic<uint64_t> poll_eintr(0);
+static pthread_t poll_thread; static std::atomic<bool> poll_thread_known(false);
 static const std::pair<const char *, int> ERRS[] = {{"EINTR", EINTR}, {"EAGAIN", EAGAIN}, {"ENOSPC", ENOSPC}, {"EIO", EIO}, {"EFBIG", EFBIG},
-    {"EDQUOT", EDQUOT}, {"EPIPE", EPIPE}, {"EMFILE", EMFILE}, {"EACCES", EACCES}, {"EEXIST", EEXIST}, {"EBADF", EBADF}};
+    {"EDQUOT", EDQUOT}, {"EPIPE", EPIPE}, {"EMFILE", EMFILE}, {"EACCES", EACCES}, {"EEXIST", EEXIST}, {"EBADF", EBADF}, {"ENOMEM", ENOMEM}, {"EINVAL", EINVAL}};
 static int errOf(const std::string &n) { for (auto &e : ERRS) if (n == e.first) return e.second; return 0; }
 static std::string errName(int e) { for (auto &x : ERRS) if (x.second == e) return x.first; return "E" + std::to_string(e); }
 // the planned answer for the next call of `kind` on sink k ("" = let the kernel answer); caller holds mx
@@ -131,6 +136,34 @@ extern "C" ssize_t write(int fd, const void *buf, size_t count) {
     errno = e;
     return r;
 }
+// poll(&{fd 1, POLLOUT}, 1, -1): what AsyncStdoutSink::flush() waits in after EAGAIN.  Planned answers: READY (1, POLLOUT), ZERO (0),
+// EINTR / ENOMEM / EINVAL (-1); no plan entry = the kernel answers (fd 1 is a capture file: ready at once; in pipe mode: really waits)
+extern "C" int poll(struct pollfd *fds, nfds_t nfds, int timeout) {
+    static auto real = (int (*)(struct pollfd *, nfds_t, int))dlsym(RTLD_NEXT, "poll");
+    int k = 0; std::string ans;
+    if (nfds == 1 && fds && fds[0].fd == 1) {
+        std::lock_guard<std::mutex> lk(ip::mx);
+        k = ip::log_prefix.empty() ? 0 : ip::fd1_sink;
+        if (k) { if (ip::kplan.count(k)) ans = ip::answer(k, 'p'); if (!ans.empty()) ++ip::injected; }
+    }
+    if (!k) return real(fds, nfds, timeout);
+    int r, e = 0;
+    if (ans == "READY") { fds[0].revents = POLLOUT; r = 1; }
+    else if (ans == "ZERO") { fds[0].revents = 0; r = 0; }
+    else if (!ans.empty()) { r = -1; e = ip::errOf(ans); }
+    else {
+        if (!ip::poll_thread_known) { ip::poll_thread = pthread_self(); ip::poll_thread_known = true; }    // written once per case, published by the atomic flag
+        ip::in_poll = true;
+        r = real(fds, nfds, timeout); e = errno;
+        ip::in_poll = false;
+        if (r < 0 && e == EINTR) ++ip::poll_eintr;
+        ++ip::poll_returns;
+    }
+    { std::lock_guard<std::mutex> lk(ip::mx);
+      ip::ktrace[k].push_back(std::string("p ") + (r > 0 ? "ready" : r == 0 ? "0" : "-" + ip::errName(e)) + " " + std::to_string(timeout)); }
+    errno = e;
+    return r;
+}
 static int open_impl(const char *path, int flags, mode_t mode) {
     static auto real = (int (*)(const char *, int, ...))dlsym(RTLD_NEXT, "open");
     int k = 0; std::string ans;
@@ -139,7 +172,7 @@ static int open_impl(const char *path, int flags, mode_t mode) {
     int fd, e = 0;
     if (!ans.empty() && ans[0] == 'E') { fd = -1; e = ip::errOf(ans); } else { fd = real(path, flags, mode); e = errno; }
     { std::lock_guard<std::mutex> lk(ip::mx);
-      if (fd >= 0) ip::fd2sink[fd] = k;
+      if (fd >= 0) { ip::fd2sink[fd] = k; ip::created[k].push_back(path); }
       ip::ktrace[k].push_back(std::string("o ") + (fd >= 0 ? "ok" : "-" + ip::errName(e))); }
     errno = e;
     return fd;
@@ -235,10 +268,13 @@ struct SinkSlot {
     std::string kind;                             // rec file sout aout syslog
     std::string dir;
     bool enabled = true, dirty = false;
+    bool pipe = false;                            // aout: fd 1 is the write end of a small non-blocking pipe
+    bool reconf = false; std::vector<std::string> dirs; int ndir = 0; std::string prefix = "p";   // file: setFilePath/Prefix/SyncEnable called while in use
     tbox::log::Sink *base() { return other ? other.get() : is_file ? (tbox::log::Sink *)file.get() : (tbox::log::Sink *)rec.get(); }
     bool fd1() const { return kind == "sout" || kind == "aout"; }
 };
 
+const char *MARKER_TEXTS[4] = {"(TRUNCATED)", "x (TRUNCATED)", "x(TRUNCATED)", "(TRUNCATED) (TRUNCATED)"};
 struct Msg { int t; int level; const char *mod, *func, *file; int line; char kind; uint64_t len, seed; };
 
 // ---- per-case state
@@ -269,8 +305,40 @@ void rmrf(const std::string &p) {
     rmdir(p.c_str());
 }
 
+// ---- pipe mode of the async stdout sink: fd 1 = write end of a non-blocking pipe that nobody reads until `off`
+int g_pipe_rd = -1; std::thread g_pipe_reader; std::string g_pipe_data; bool g_pipe_on = false, g_pipe_draining = false;
+void onSigUsr1(int) {}
+bool pipeBegin(uint64_t size) {
+    int fds[2]; if (pipe(fds) != 0) return false;
+    if (fcntl(fds[1], F_SETPIPE_SZ, (int)size) < 0) {}
+    fcntl(fds[1], F_SETFL, fcntl(fds[1], F_GETFL) | O_NONBLOCK);
+    fflush(stdout); dup2(fds[1], 1); close(fds[1]);
+    g_pipe_rd = fds[0]; g_pipe_on = true; g_pipe_draining = false; g_pipe_data.clear();
+    return true;
+}
+void pipeDrain() {
+    if (!g_pipe_on || g_pipe_draining) return;
+    g_pipe_draining = true;
+    g_pipe_reader = std::thread([] {
+        sigset_t set; sigemptyset(&set); sigaddset(&set, SIGUSR1); pthread_sigmask(SIG_BLOCK, &set, nullptr);
+        char buf[4096];
+        for (;;) { ssize_t n = read(g_pipe_rd, buf, sizeof(buf)); if (n > 0) g_pipe_data.append(buf, (size_t)n); else if (n == 0 || errno != EINTR) break; }
+    });
+}
+void pipeEnd() {        // fd 1 back to the capture file (closes the last write end: EOF for the reader); what the pipe carried is appended to it
+    if (!g_pipe_on) return;
+    pipeDrain();
+    int cfd = open(g_cap_path.c_str(), O_WRONLY | O_APPEND);
+    if (cfd >= 0) { dup2(cfd, 1); close(cfd); }
+    g_pipe_reader.join(); close(g_pipe_rd); g_pipe_rd = -1; g_pipe_on = false; g_pipe_draining = false;
+    size_t p = 0; while (p < g_pipe_data.size()) { ssize_t n = ip::real_write()(1, g_pipe_data.data() + p, g_pipe_data.size() - p); if (n <= 0) break; p += (size_t)n; }
+    g_pipe_data.clear();
+}
+
 void endCase() {
+    pipeDrain();
     for (auto &s : g_sinks) { if (s.base()) s.base()->disable(); }
+    pipeEnd();
     g_sinks.clear();
     if (g_raw_id) { LogRemovePrintfFunc(g_raw_id); g_raw_id = 0; }
     { std::lock_guard<std::mutex> lk(g_mx); g_case_end = true; } g_cv.notify_all();
@@ -283,7 +351,8 @@ void endCase() {
     if (g_real_out != 1) { if (ftruncate(1, 0) != 0) {} lseek(1, 0, SEEK_SET); }
     std::lock_guard<std::mutex> lk(ip::mx);
     ip::plan.clear(); ip::plan_pos = 0; ip::injected = 0; ip::sys_msgs.clear(); ip::log_prefix.clear();
-    ip::kplan.clear(); ip::kcount.clear(); ip::ktrace.clear(); ip::fd2sink.clear(); ip::fd1_sink = 0;
+    ip::kplan.clear(); ip::kcount.clear(); ip::ktrace.clear(); ip::fd2sink.clear(); ip::fd1_sink = 0; ip::created.clear();
+    ip::in_poll = false; ip::poll_thread_known = false;
 }
 void beginCase() {
     endCase();
@@ -309,8 +378,9 @@ void worker(int run, int tag, std::vector<Msg> msgs, unsigned pace_us) {
         if (m.kind == 'w') { LogPrintfFunc(m.mod, m.func, m.file, m.line, m.level, 1, "%*d", (int)std::max<uint64_t>(m.len, 1), 7); continue; }
         if (m.kind == 'o') { LogPrintfFunc(m.mod, m.func, m.file, m.line, m.level, 1, "%*d%*d", INT_MAX, 7, (int)std::max<uint64_t>(m.len, 1), 7); continue; }
         if (m.kind == 'e') { LogPrintfFunc(m.mod, m.func, m.file, m.line, m.level, 1, "ab%lcde", (wint_t)0x20AC); continue; }
-        std::string body = genText(m.len, m.seed);
-        if (m.kind == 'p') LogPrintfFunc(m.mod, m.func, m.file, m.line, m.level, 1, "%s", body.c_str());
+        // 'm': a text that ends like the truncation marker (the record format cannot tell "text (TRUNCATED)" from a truncated "text")
+        std::string body = m.kind == 'm' ? std::string(MARKER_TEXTS[m.len % 4]) : genText(m.len, m.seed);
+        if (m.kind == 'p' || m.kind == 'm') LogPrintfFunc(m.mod, m.func, m.file, m.line, m.level, 1, "%s", body.c_str());
         else if (m.kind == 'f') LogPrintfFunc(m.mod, m.func, m.file, m.line, m.level, 1, "%d|%s", (int)m.seed, body.c_str());
         else LogPrintfFunc(m.mod, m.func, m.file, m.line, m.level, 0, body.c_str());
     }
@@ -327,6 +397,15 @@ bool nameOk(const std::string &s, bool path) {
     for (char c : s) if (!(isalnum((unsigned char)c) || c == '_' || c == '.' || (path && c == '/'))) return false;
     return true;
 }
+// a name token: plain (nameOk) or `stem~N` = the stem extended to exactly N characters with its last character (N <= 1200)
+bool expandName(const std::string &tok, bool path, std::string &out) {
+    size_t t = tok.find('~');
+    if (t == std::string::npos) { out = tok; return nameOk(tok, path); }
+    std::string stem = tok.substr(0, t), num = tok.substr(t + 1); uint64_t n;
+    if (!nameOk(stem, path) || num.empty() || num.size() > 4 || !vh::to_u64(num, n) || n < stem.size() || n > 1200) return false;
+    out = stem + std::string((size_t)n - stem.size(), stem.back());
+    return true;
+}
 bool parseMsg(const std::string &w, int T, Msg &m) {
     std::vector<std::string> f; std::string cur;
     for (char c : w) { if (c == ':') { f.push_back(cur); cur.clear(); } else cur.push_back(c); }
@@ -335,15 +414,16 @@ bool parseMsg(const std::string &w, int T, Msg &m) {
     uint64_t t, len, seed; int64_t lv, ln;
     if (!vh::to_u64(f[0], t) || !vh::to_i64(f[1], lv) || !vh::to_i64(f[5], ln) || !vh::to_u64(f[7], len) || !vh::to_u64(f[8], seed)) return false;
     if (f[0].size() > 9 || f[1].size() > 9 || f[5].size() > 11 || f[7].size() > 10 || f[8].size() > 9) return false;
-    if (f[6].size() != 1 || !strchr("psnfwoe", f[6][0])) return false;
+    if (f[6].size() != 1 || !strchr("psnfwoem", f[6][0])) return false;
     if (f[7].size() > 10 || t >= (uint64_t)T || len > (f[6][0] == 'w' ? 2147483647u : 200000u) || seed > 1000000 || std::llabs(ln) > 1000000000 || std::llabs(lv) > 1000) return false;
-    if (f[2] != "-" && !nameOk(f[2], false)) return false;
-    if (f[3] != "-" && !nameOk(f[3], false)) return false;
-    if (f[4] != "-" && !nameOk(f[4], true)) return false;
+    std::string n2, n3, n4;
+    if (f[2] != "-" && !expandName(f[2], false, n2)) return false;
+    if (f[3] != "-" && !expandName(f[3], false, n3)) return false;
+    if (f[4] != "-" && !expandName(f[4], true, n4)) return false;
     m.t = (int)t; m.level = (int)lv; m.line = (int)ln; m.kind = f[6][0]; m.len = len; m.seed = seed;
-    m.mod = f[2] == "-" ? nullptr : intern(f[2]);
-    m.func = f[3] == "-" ? nullptr : intern(f[3]);
-    m.file = f[4] == "-" ? nullptr : intern(f[4]);
+    m.mod = f[2] == "-" ? nullptr : intern(n2);
+    m.func = f[3] == "-" ? nullptr : intern(n3);
+    m.file = f[4] == "-" ? nullptr : intern(n4);
     return true;
 }
 
@@ -402,7 +482,9 @@ bool parseLine(const std::string &l0, int &tag, std::string &out, std::string &m
     }
     bool trunc = false;
     const std::string mk = "(TRUNCATED) ";
-    if (mid.size() >= mk.size() && mid.compare(mid.size() - mk.size(), mk.size(), mk) == 0) { trunc = true; mid.resize(mid.size() - mk.size()); }
+    if (mid.size() >= mk.size() && mid.compare(mid.size() - mk.size(), mk.size(), mk) == 0 && (mid.size() == mk.size() || mid[mid.size() - mk.size() - 1] == ' ')) {
+        trunc = true; mid.resize(mid.size() - mk.size());
+    }
     std::string text;
     if (!mid.empty()) { if (mid.back() != ' ') return false; text = mid.substr(0, mid.size() - 1); if (text.empty()) return false; }
     std::ostringstream o;
@@ -451,12 +533,13 @@ std::string slurp(const std::string &path) {
 void listFiles(int k, SinkSlot &s) {
     struct Ent { std::string ts; long n; std::string path; };
     std::vector<Ent> ents;
-    DIR *d = opendir(s.dir.c_str());
+    for (const std::string &dir : s.dirs) {
+    DIR *d = opendir(dir.c_str());
     if (d) {
         while (dirent *e = readdir(d)) {
             std::string n = e->d_name; if (n == "." || n == "..") continue;
-            std::string q = s.dir + "/" + n; struct stat st;
-            if (lstat(q.c_str(), &st) != 0 || !S_ISREG(st.st_mode)) continue;     // skips the latest.log symlink
+            std::string q = dir + "/" + n; struct stat st;
+            if (lstat(q.c_str(), &st) != 0 || !S_ISREG(st.st_mode)) continue;     // skips the latest.log symlink and sub-directories
             // p.<YYYYmmdd_HHMMSS>.<pid>.log[.N]
             std::vector<std::string> parts; std::string cur;
             for (char c : n) { if (c == '.') { parts.push_back(cur); cur.clear(); } else cur.push_back(c); }
@@ -467,8 +550,17 @@ void listFiles(int k, SinkSlot &s) {
         }
         closedir(d);
     }
+    }
     std::sort(ents.begin(), ents.end(), [](const Ent &a, const Ent &b) { return a.ts != b.ts ? a.ts < b.ts : a.n < b.n; });
     std::vector<std::string> files;
+    if (s.reconf) {
+        // path / prefix changed while in use: names of different directories / prefixes do not sort by creation; take the order in which
+        // open(O_CREAT) succeeded (every file found must have been created exactly once, otherwise fall back to the name order)
+        std::vector<std::string> cr; { std::lock_guard<std::mutex> lk(ip::mx); cr = ip::created[k]; }
+        std::vector<std::string> a = cr, b; for (auto &e : ents) b.push_back(e.path);
+        std::sort(a.begin(), a.end()); std::sort(b.begin(), b.end());
+        if (a == b && std::adjacent_find(a.begin(), a.end()) == a.end()) { for (auto &q : cr) files.push_back(slurp(q)); emitListing(k, files); return; }
+    }
     for (auto &e : ents) files.push_back(slurp(e.path));
     emitListing(k, files);
 }
@@ -499,6 +591,7 @@ bool slotOf(const std::string &w, size_t &k) {
 int main() {
     std::string line;
     // fd 1 is what the stdout sinks write to: point it at a capture file, keep the real stdout for the protocol
+    { struct sigaction sa; memset(&sa, 0, sizeof(sa)); sa.sa_handler = onSigUsr1; sa.sa_flags = SA_RESTART; sigaction(SIGUSR1, &sa, nullptr); }   // poll() is not restarted anyway
     g_real_out = dup(1);
     g_cap_path = "/tmp/C09-" + std::to_string(getpid()) + "-cap";
     { int cfd = open(g_cap_path.c_str(), O_CREAT | O_TRUNC | O_WRONLY | O_APPEND, 0600);
@@ -525,15 +618,17 @@ int main() {
             } else {
                 SinkSlot s; s.kind = "file"; s.is_file = true; s.file.reset(new tbox::log::AsyncFileSink);
                 tbox::log::AsyncSink::Config cfg; cfg.buff_size = v[1]; cfg.buff_min_num = v[2]; cfg.buff_max_num = v[3]; cfg.interval = v[4];
-                s.dir = g_base + "/s" + std::to_string(g_sinks.size() + 1);
+                s.dir = g_base + "/s" + std::to_string(g_sinks.size() + 1); s.dirs.push_back(s.dir);
                 s.file->setConfig(cfg); s.file->setFilePath(s.dir); s.file->setFilePrefix("p"); s.file->setFileMaxSize(v[0]);
                 s.file->enable();
                 g_sinks.push_back(std::move(s));
                 OUT << "P sink " << g_sinks.size() << " file\n";
             }
-        } else if (op == "sink" && w.size() >= 2 && (w[1] == "sout" || w[1] == "aout" || w[1] == "syslog")) {
-            uint64_t v[4] = {1, 1, 1, 1}; bool ok = (w[1] == "sout") ? w.size() == 2 : w.size() == 6;
+        } else if (op == "sink" && w.size() >= 2 && (w[1] == "sout" || w[1] == "aout" || w[1] == "aoutp" || w[1] == "syslog")) {
+            // aoutp <pipe cfg> <bytes>: the async stdout sink with fd 1 = a non-blocking pipe of <bytes> capacity that nobody reads until `off`
+            uint64_t v[4] = {1, 1, 1, 1}, psz = 0; bool ok = (w[1] == "sout") ? w.size() == 2 : w.size() == (w[1] == "aoutp" ? 7u : 6u);
             if (ok && w[1] != "sout") for (int i = 0; i < 4; ++i) ok = ok && w[2 + i].size() <= 9 && vh::to_u64(w[2 + i], v[i]);
+            if (ok && w[1] == "aoutp") ok = w[6].size() <= 6 && vh::to_u64(w[6], psz) && psz >= 4096 && psz <= 65536 && v[0] * v[2] >= 100000;   // nobody reads fd 1 until `off`: the async pipe must hold everything
             bool fd1 = w[1] != "syslog", has_fd1 = false;
             for (auto &x : g_sinks) has_fd1 = has_fd1 || x.fd1();
             if (!ok || v[0] == 0 || v[1] == 0 || v[1] > v[2] || v[3] == 0 || v[0] > 1000000 || v[2] > 64 || v[3] > 1000 || g_sinks.size() >= 6 || (fd1 && has_fd1)) {
@@ -542,9 +637,10 @@ int main() {
                 SinkSlot s; s.kind = w[1];
                 tbox::log::AsyncSink::Config cfg; cfg.buff_size = v[0]; cfg.buff_min_num = v[1]; cfg.buff_max_num = v[2]; cfg.interval = v[3];
                 if (w[1] == "sout") s.other.reset(new tbox::log::SyncStdoutSink);
-                else if (w[1] == "aout") { auto *p = new tbox::log::AsyncStdoutSink; p->setConfig(cfg); s.other.reset(p); }
+                else if (w[1] == "aout" || w[1] == "aoutp") { auto *p = new tbox::log::AsyncStdoutSink; p->setConfig(cfg); s.other.reset(p); s.kind = "aout"; s.pipe = w[1] == "aoutp"; }
                 else { auto *p = new tbox::log::AsyncSyslogSink; p->setConfig(cfg); s.other.reset(p); }
-                if (w[1] == "aout") { std::lock_guard<std::mutex> lk(ip::mx); ip::fd1_sink = (int)g_sinks.size() + 1; }
+                if (s.kind == "aout") { std::lock_guard<std::mutex> lk(ip::mx); ip::fd1_sink = (int)g_sinks.size() + 1; }
+                if (s.pipe) pipeBegin(psz);
                 s.other->enable();
                 g_sinks.push_back(std::move(s));
                 OUT << "P sink " << g_sinks.size() << ' ' << w[1] << "\n";
@@ -563,17 +659,50 @@ int main() {
             ip::KPlan pl; bool ok = true;
             for (size_t i = 2; i < w.size() && ok; ++i) {
                 const std::string &e = w[i]; size_t eq = e.find('=');
-                ok = eq != std::string::npos && eq >= 2 && eq <= 5 && strchr("wocydWOCYD", e[0]) != nullptr;
+                ok = eq != std::string::npos && eq >= 2 && eq <= 5 && strchr("wocydpWOCYDP", e[0]) != nullptr;
                 uint64_t idx = 0; std::string a = ok ? e.substr(eq + 1) : "";
                 ok = ok && vh::to_u64(e.substr(1, eq - 1), idx) && !a.empty() && a.size() <= 7;
                 char kind = ok ? (char)tolower(e[0]) : 'w';
                 bool num = ok && isdigit((unsigned char)a[0]);
                 if (ok && num) { uint64_t v; ok = vh::to_u64(a, v) && v >= 1 && kind == 'w'; }
-                else if (ok) ok = (a == "ZERO" && kind == 'w') || ip::errOf(a) != 0;
+                else if (ok) ok = (a == "ZERO" && (kind == 'w' || kind == 'p')) || (a == "READY" && kind == 'p') || ip::errOf(a) != 0;
                 if (ok) { if (isupper((unsigned char)e[0])) pl.from[kind] = {idx, a}; else pl.at[{kind, idx}] = a; }
             }
             if (!ok) OUT << "bad-op\n";
             else { std::lock_guard<std::mutex> lk(ip::mx); ip::kplan[(int)k] = pl; ip::kcount[(int)k].clear(); OUT << "P kfault\n"; }
+        } else if (op == "sig" && w.size() == 3 && slotOf(w[1], k) && g_sinks[k - 1].pipe && g_sinks[k - 1].enabled && g_pipe_on && !g_pipe_draining
+                   && w[2].size() <= 2 && vh::to_u64(w[2], n) && n >= 1 && n <= 20) {
+            // n times: wait until the sink's back-end thread sits in the real poll() on the full pipe, then deliver a HANDLED SIGUSR1 to that thread
+            // (best effort: what happened is in the K lines; no observable depends on how many polls were interrupted)
+            for (uint64_t i = 0; i < n; ++i) {
+                int waited = 0;
+                while (!ip::in_poll && waited < 5000) { usleep(1000); ++waited; }
+                if (!ip::in_poll || !ip::poll_thread_known) break;
+                usleep(3000);                                   // let it really block inside the kernel
+                uint64_t r0 = ip::poll_returns;
+                if (!ip::in_poll) continue;
+                pthread_kill(ip::poll_thread, SIGUSR1);
+                for (waited = 0; ip::poll_returns == r0 && waited < 2000; ++waited) usleep(1000);
+            }
+            OUT << "P sig\n";
+        } else if (op == "fcfg" && w.size() == 4 && slotOf(w[1], k) && g_sinks[k - 1].is_file
+                   && ((w[2] == "path" && (w[3] == "same" || w[3] == "new")) || (w[2] == "prefix" && (w[3] == "same" || w[3] == "new"))
+                       || (w[2] == "sync" && (w[3] == "0" || w[3] == "1")) || (w[2] == "max" && w[3].size() <= 9 && vh::to_u64(w[3], n)))) {
+            // reconfiguration of a file sink that is in use (call it at a quiescent point: after `settle`); `same` = the value it already has
+            SinkSlot &sl = g_sinks[k - 1];
+            if (w[2] == "max") {
+                { std::lock_guard<std::mutex> lk(ip::mx); ip::ktrace[(int)k].push_back("setmax " + std::to_string(n)); }
+                sl.file->setFileMaxSize(n);
+            } else {
+                { std::lock_guard<std::mutex> lk(ip::mx); ip::ktrace[(int)k].push_back("reopen"); }
+                sl.reconf = true;
+                if (w[2] == "path") {
+                    if (w[3] == "new") { sl.dir = sl.dirs[0] + "/n" + std::to_string(++sl.ndir); sl.dirs.push_back(sl.dir); }
+                    sl.file->setFilePath(sl.dir);
+                } else if (w[2] == "prefix") { if (w[3] == "new") sl.prefix = sl.prefix == "p" ? "q" : "p"; sl.file->setFilePrefix(sl.prefix); }
+                else sl.file->setFileSyncEnable(w[3] == "1");
+            }
+            OUT << "P fcfg\n";
         } else if (op == "settle" && w.size() == 2 && w[1].size() <= 3 && vh::to_u64(w[1], n) && n >= 1 && n <= 200) {
             usleep((useconds_t)n * 1000);      // lets the back ends drain their pipes: what follows happens after those flushes (no observable depends on it)
             OUT << "P settle\n";
@@ -602,7 +731,9 @@ int main() {
             bool r = g_sinks[k - 1].base()->enable(); g_sinks[k - 1].enabled = true; OUT << "P on " << k << ' ' << (r ? 1 : 0) << "\n";
         } else if (op == "off" && w.size() == 2 && slotOf(w[1], k)) {
             { std::lock_guard<std::mutex> lk(ip::mx); ip::ktrace[(int)k].push_back("off-begin"); }
+            if (g_sinks[k - 1].pipe) pipeDrain();          // somebody finally reads the pipe
             g_sinks[k - 1].base()->disable(); g_sinks[k - 1].enabled = false; g_sinks[k - 1].dirty = false;
+            if (g_sinks[k - 1].pipe) { pipeEnd(); g_sinks[k - 1].pipe = false; }   // a later `on` writes to the capture file
             // everything logged before disable() must be on disk / on fd 1 / handed to syslog NOW
             if (g_sinks[k - 1].is_file) listFiles((int)k, g_sinks[k - 1]);
             else if (g_sinks[k - 1].other) listStream((int)k, g_sinks[k - 1]);
